@@ -4,8 +4,10 @@
 package main
 
 import (
+	"context"
 	"errors"
 	"fmt"
+	"io"
 	"time"
 
 	"github.com/fogfish/golem/trait/pair"
@@ -308,11 +310,95 @@ func level(d int) levels {
 
 var errStop = errors.New("stop")
 
+// stopErrs: the errors a callback may return are arbitrary values, including ones that other code treats as "not
+// really an error"; ForEach hands back the very value it was given. The position decides which one is used.
+var stopErrs = []error{errStop, io.EOF, fmt.Errorf("reading: %w", io.EOF), context.Canceled, io.ErrUnexpectedEOF, errors.New("")}
+
 type checker struct{ r *drv.Result }
 
 func (c *checker) viol(sig string, n *node, f string, a ...any) {
 	if len(c.r.Viols) < 3 {
 		c.r.Viols = append(c.r.Viols, drv.Viol{Sig: "C15/" + sig, Msg: n.String() + ": " + fmt.Sprintf(f, a...), Replay: map[string]any{"expr": n.String()}})
+	}
+}
+
+// interfaceValues: the value type of a pair sequence is an interface type and some values are nil interface values
+// (an error that is nil for "fine", an optional any). A nil value is a value like any other: it is delivered with its key.
+func interfaceValues(c *checker) {
+	type PA = pair.Seq[int, any]
+	src := func(n int) pair.Seq[int, int] {
+		var s pair.Seq[int, int]
+		for i := n; i >= 1; i-- {
+			s = pair.Plus(pair.From(100+i, i), s)
+		}
+		return s
+	}
+	toAny := func(k, v int) any {
+		if v%2 == 0 {
+			return nil
+		}
+		return v * 10
+	}
+	drain := func(s PA) (out []string) {
+		for has := s != nil; has; has = s.Next() {
+			out = append(out, fmt.Sprintf("%d:%v", s.Key(), s.Value()))
+		}
+		return
+	}
+	report := func(name string, got, want []string) {
+		c.r.Evaluations++
+		if fmt.Sprint(got) != fmt.Sprint(want) {
+			c.r.Viols = append(c.r.Viols, drv.Viol{Sig: "C15/interface-values", Msg: fmt.Sprintf("%s: drained %v, want %v", name, got, want), Replay: map[string]any{"expr": name}})
+		}
+	}
+	for n := 1; n <= 4; n++ {
+		var want []string
+		for i := 1; i <= n; i++ {
+			want = append(want, fmt.Sprintf("%d:%v", 100+i, toAny(100+i, i)))
+		}
+		m := func() PA { return pair.Map(src(n), toAny) }
+		report(fmt.Sprintf("Map(%d pairs, v -> nil if even)", n), drain(m()), want)
+		report(fmt.Sprintf("Filter(Map(%d pairs, ...), true)", n), drain(pair.Filter(m(), func(int, any) bool { return true })), want)
+		report(fmt.Sprintf("TakeWhile(Map(%d pairs, ...), true)", n), drain(pair.TakeWhile(m(), func(int, any) bool { return true })), want)
+		report(fmt.Sprintf("Plus(Map(%d pairs, ...), nil)", n), drain(pair.Plus(m(), nil)), want)
+		report(fmt.Sprintf("Join(%d pairs, (k,v) -> From(k, nil-if-even))", n), drain(pair.Join(src(n), func(k, v int) PA { return pair.From(k, toAny(k, v)) })), want)
+		// errors as values: nil means fine
+		var wantE []string
+		for i := 1; i <= n; i++ {
+			if i%2 == 1 {
+				wantE = append(wantE, fmt.Sprintf("%d:bad %d", 100+i, i))
+			} else {
+				wantE = append(wantE, fmt.Sprintf("%d:<nil>", 100+i))
+			}
+		}
+		e := pair.Map(src(n), func(k, v int) error {
+			if v%2 == 1 {
+				return fmt.Errorf("bad %d", v)
+			}
+			return nil
+		})
+		var gotE []string
+		for has := e != nil; has; has = e.Next() {
+			gotE = append(gotE, fmt.Sprintf("%d:%v", e.Key(), e.Value()))
+		}
+		report(fmt.Sprintf("Map(%d pairs, v -> error, nil if even)", n), gotE, wantE)
+		// plain sequences of any
+		var wantQ []string
+		for i := 1; i <= n; i++ {
+			wantQ = append(wantQ, fmt.Sprint(toAny(0, i)))
+		}
+		q := pair.ToSeq(src(n), func(k, v int) seq.Seq[any] { return seq.From(toAny(k, v)) })
+		var gotQ []string
+		for has := q != nil; has; has = q.Next() {
+			gotQ = append(gotQ, fmt.Sprint(q.Value()))
+		}
+		report(fmt.Sprintf("ToSeq(%d pairs, (k,v) -> From(nil-if-even))", n), gotQ, wantQ)
+		sm := seq.Map(seq.FromSlice([]int{1, 2, 3, 4}[:n]), func(v int) any { return toAny(0, v) })
+		var gotM []string
+		for has := sm != nil; has; has = sm.Next() {
+			gotM = append(gotM, fmt.Sprint(sm.Value()))
+		}
+		report(fmt.Sprintf("seq.Map(%d elements, v -> nil if even)", n), gotM, wantQ)
 	}
 }
 
@@ -345,13 +431,13 @@ func (c *checker) evalP(n *node) {
 		err := pair.ForEach(s2, func(k, v int) error {
 			seen = append(seen, kv{k, v})
 			if len(seen) == p+1 {
-				return errStop
+				return stopErrs[p%len(stopErrs)]
 			}
 			return nil
 		})
 		want, wantErr := ref, error(nil)
 		if p < len(ref) {
-			want, wantErr = ref[:p+1], errStop
+			want, wantErr = ref[:p+1], stopErrs[p%len(stopErrs)]
 		}
 		c.r.Transitions += len(seen)
 		if fmt.Sprint(seen) != fmt.Sprint(want) || err != wantErr {
@@ -408,6 +494,7 @@ func mkCases(tier string) []caseDef {
 			c.evalQ(n)
 		}
 	}})
+	cs = append(cs, caseDef{"values of an interface type, nil among them (Map to any / error, Filter, Plus, Join, ToSeq)", func(c *checker, _ time.Time) { interfaceValues(c) }})
 	deep := tier == "thorough"
 	{
 		// depth 4: every unary / join / FromSeq / ToSeq root over depth-3 operands, Plus with one operand of depth <= 2
